@@ -50,12 +50,20 @@ func main() {
 		defer func() { dpanic = recover() }()
 		req, derr = plugin.UnmarshalRequest(data)
 	}()
+	slot := ""
 	if req != nil {
 		for _, p := range req.PluginParameters {
 			if strings.HasPrefix(p, "slot=") {
-				dir = filepath.Join(dir, strings.TrimPrefix(p, "slot="))
+				slot = strings.TrimPrefix(p, "slot=")
 			}
 		}
+	}
+	// a copy or link of this binary named rec_<slot> selects the slot by its name (plugins without parameters)
+	if b := filepath.Base(os.Args[0]); strings.HasPrefix(b, "rec_") {
+		slot = strings.TrimPrefix(b, "rec_")
+	}
+	if slot != "" {
+		dir = filepath.Join(dir, slot)
 	}
 	os.MkdirAll(dir, 0o755)
 	os.WriteFile(filepath.Join(dir, "started"), []byte(fmt.Sprint(os.Getpid())), 0o644)
@@ -74,12 +82,8 @@ func main() {
 	}
 	var sc script
 	env := "REC_SCRIPT"
-	if req != nil {
-		for _, p := range req.PluginParameters {
-			if strings.HasPrefix(p, "slot=") && os.Getenv("REC_SCRIPT_"+strings.TrimPrefix(p, "slot=")) != "" {
-				env = "REC_SCRIPT_" + strings.TrimPrefix(p, "slot=")
-			}
-		}
+	if slot != "" && os.Getenv("REC_SCRIPT_"+slot) != "" {
+		env = "REC_SCRIPT_" + slot
 	}
 	if s := os.Getenv(env); s != "" {
 		if err := json.Unmarshal([]byte(s), &sc); err != nil {
